@@ -71,24 +71,16 @@ def classify(rec):
     sql = rec.get("sql") or ""
     v = rec["verdict"]
     wcols = pg.meta.get("wcols") or {}
-    # F53 (same root as F29, without the panic): the generated column of a computed sort key is used by the ORDER BY .. LIMIT
-    # of a CTE whose input CTE does not project it, once a later group has made the sort "unneeded"
-    if v == "sql-err":
-        m = re.search(r"no such column: (_expr_\d+)", str(rec.get("sqlite")))
-        ks = pg.kinds()
-        if m and re.search(r"ORDER BY [^()]*\b%s\b[^()]* LIMIT" % m.group(1), sql) and "take" in ks \
-                and any(k in ("group_win", "group_agg", "group_take") for k in ks[ks.index("take"):]) \
-                and any(s.kind == "sort" and any(e[0] != "col" for _, e in s.info.get("keys", [])) for s in pg.steps[:ks.index("take")]):
-            return "F53-sort-key-column-lost-before-take"
     # F51: a window function written directly as a sort key is lowered without any window (no OVER)
     direct = [m for m in wcols.values() if m.get("sortdirect")]
     if direct and v in ("rows", "sql-err"):
         calls = over_clauses(sql, FN_SQL[direct[0]["fn"]])
         if calls and all(c is None for c in calls):
             return "F51-window-fn-as-sort-key"
-    # F52: rows/range with start > end is taken for "argument not given" (whole partition) instead of the empty segment
+    # F54: rows:0..-1 / range:0..-1 written out is taken for "argument not given" (whole partition) instead of the empty
+    #      segment (every other empty range is rejected since /repo 7b31f75: F52 is fixed and classifies nothing)
     # F22: first/last never get a frame clause
-    for fid, flag in (("F52-empty-frame-range-ignored", "empty"), ("F22-first-last-no-frame", "f22")):
+    for fid, flag in (("F54-explicit-default-range-is-not-given", "f54"), ("F22-first-last-no-frame", "f22")):
         bad = {n: m for n, m in wcols.items() if m.get(flag)}
         if not (bad and v == "rows" and "sqlite_rows" in rec):
             continue
@@ -109,7 +101,7 @@ def classify(rec):
         names = rec.get("model_names") or []
         if len(cols) != len(names):
             continue
-        allbad = {n for n, m in wcols.items() if m.get("f22") or m.get("empty")}
+        allbad = {n for n, m in wcols.items() if m.get("f22") or m.get("f54")}
         keep = [i for i, c in enumerate(cols) if c not in allbad]
         if len(keep) == len(cols):
             continue
@@ -148,6 +140,17 @@ def run_stream(ck, stream, cases, targets, sample_every=211):
         why = judge(rec)
         if i % sample_every == 0:
             ck.sample(summarize(rec))
+        rej = pg.meta.get("rejected")
+        if rej:
+            # an empty rows / range argument: the program must be rejected with exactly the modelled error
+            reasons = [e.get("reason") for e in (rec.get("compile") or {}).get("err", [])] if rec["verdict"] == "compile-err" else None
+            if reasons == [W.EMPTY_RANGE_MSG % rej]:
+                ck.stat(stream, "rejected-as-modelled")
+                continue
+            ck.stat(stream, "disagreement:UNEXPLAINED")
+            ck.disagreement("a `%s` argument that is an empty range is not rejected as the model of the `window` transform says (%s): %s [%s]" % (
+                rej, rec["verdict"], rec["prql"].replace("\n", " | ")[:300], rec["target"]), R.replay_of(rec), lambda _c: None)
+            continue
         if why is None:
             continue
         fid = classify(rec)
@@ -265,7 +268,8 @@ def sortdirect_cases(ck):
 
 
 def empty_range_cases(ck):
-    """rows / range arguments whose start is after their end: the book's meaning is the empty segment"""
+    """rows / range arguments whose start is after their end: rejected (7b31f75) -- except the spelling 0..-1 of the
+    default, which still means the whole partition where the book's inclusive bounds give the empty segment (F54)"""
     rng = ck.rng
     cases = []
     for kind in ("rows", "range"):
